@@ -163,6 +163,18 @@ namespace vf
         return i;
     }
 
+    // ord(a) - ord(b), saturated (the difference of two order images can exceed the int64 range)
+    inline std::int64_t ord_diff(double a, double b)
+    {
+        __int128 d = static_cast<__int128>(ord(a)) - static_cast<__int128>(ord(b));
+        const __int128 mx = static_cast<__int128>(INT64_MAX);
+        if (d > mx)
+            return INT64_MAX;
+        if (d < -mx)
+            return -INT64_MAX;
+        return static_cast<std::int64_t>(d);
+    }
+
     inline std::uint64_t bits(double x)
     {
         std::uint64_t i;
